@@ -50,10 +50,14 @@ def replay_file(path):
         for dd in u.failed[oid]:
             print(f'obligation still fails: {dd["message"]} at {dd.get("site")}')
             print(dd.get('rendered', ''))
-        if rec.get('replay_test'):
+        if rec.get('replay_test') and 'test' in rec['replay_test']:
             from . import scratch
             ok, info = scratch.run_replay_driver(rec['replay_test'])
             print('real-code replay driver', rec['replay_test'], '->', 'FAILS (violation demonstrated)' if ok is False else 'passes', json.dumps(info)[:2000])
+        elif hasattr(u, 'replay_violation'):
+            dd = dict(u.failed[oid][0])
+            u.replay_violation(None, dd)
+            print('replay by execution of the extracted code:', dd.get('counterexample'), dd.get('replay_result'))
         print(f'VIOLATION property={prop} replay={path}')
         return 1
     if u.undecided:
